@@ -1260,3 +1260,278 @@ def resolve_name_test(func, expr):
         if len(defs) == 1 and len(stores) == 1:
             return next(v for t, v in assign_pairs(defs[0]) if isinstance(t, ast.Name) and t.id == expr.id), defs[0]
     return expr, None
+
+
+# ---- symbolic times: exact (real-number) evaluation of interval arithmetic over a complete abstract domain ---------
+#
+# Every time >= start is  start + interval*(k + rho)  with k a non-negative integer and 0 <= rho < 1, so evaluating
+# the repository's arithmetic on such symbolic values, once per case of the finitely many case distinctions the
+# code can make (interval == 0 / > 0, no boundary crossed / at least one crossed, first call / later call), is a
+# for-all argument over the reals.  (Floating-point rounding is outside this domain; it is sampled by the grid rules.)
+
+from fractions import Fraction as _Fr
+
+
+class SymEnv:
+    """Ranges of the symbols: 'i' > 0; integer symbols >= 0 (``ints``), optionally n = m + delta with delta fixed 0
+    or >= 1 expressed by substituting before deciding; fraction symbols in [0, 1)."""
+
+    def __init__(self, ints=(), fracs=(), subst=None):
+        self.ints = set(ints)
+        self.fracs = set(fracs)
+        self.subst = subst or {}     # int symbol -> {symbol: coef, 1: const}  (e.g. n -> m + 1 + d)
+
+
+class Lin:
+    """a0 + sum(c_x * x) + start*cs + interval * (b0 + sum(d_x * x)): ``pure`` part and ``time`` part."""
+
+    __slots__ = ("pure", "time", "s", "env")
+
+    def __init__(self, env, pure=None, time=None, s=0):
+        self.env = env
+        self.pure = {k: _Fr(v) for k, v in (pure or {}).items() if v != 0}
+        self.time = {k: _Fr(v) for k, v in (time or {}).items() if v != 0}
+        self.s = _Fr(s)
+
+    # -- helpers
+    @staticmethod
+    def lift(env, v):
+        if isinstance(v, Lin):
+            return v
+        if isinstance(v, bool) or not isinstance(v, (int, float, _Fr)):
+            raise EvalUnsupported("symbolic arithmetic with a non-number")
+        if isinstance(v, float) and v != int(v):
+            v = _Fr(v)
+        return Lin(env, {1: _Fr(v)})
+
+    def _comb(self, o, sign):
+        o = Lin.lift(self.env, o)
+        p = dict(self.pure)
+        for k, v in o.pure.items():
+            p[k] = p.get(k, 0) + sign * v
+        t = dict(self.time)
+        for k, v in o.time.items():
+            t[k] = t.get(k, 0) + sign * v
+        return Lin(self.env, p, t, self.s + sign * o.s)
+
+    def __add__(self, o):
+        return self._comb(o, 1)
+    __radd__ = __add__
+
+    def __sub__(self, o):
+        return self._comb(o, -1)
+
+    def __rsub__(self, o):
+        return Lin.lift(self.env, o)._comb(self, -1)
+
+    def __neg__(self):
+        return Lin(self.env, {k: -v for k, v in self.pure.items()}, {k: -v for k, v in self.time.items()}, -self.s)
+
+    def __pos__(self):
+        return self
+
+    def _const(self):
+        if not self.time and self.s == 0 and set(self.pure) <= {1}:
+            return self.pure.get(1, _Fr(0))
+        return None
+
+    def __mul__(self, o):
+        o = Lin.lift(self.env, o)
+        for a, b in ((self, o), (o, self)):
+            c = b._const()
+            if c is not None:
+                return Lin(self.env, {k: v * c for k, v in a.pure.items()}, {k: v * c for k, v in a.time.items()}, a.s * c)
+        raise EvalUnsupported("product of two symbolic values")
+    __rmul__ = __mul__
+
+    def _is_interval(self):
+        return not self.pure and self.s == 0 and self.time == {1: _Fr(1)}
+
+    def __truediv__(self, o):
+        o = Lin.lift(self.env, o)
+        c = o._const()
+        if c is not None and c != 0:
+            return self * (1 / c)
+        if o._is_interval() and not self.pure and self.s == 0:
+            return Lin(self.env, dict(self.time))
+        raise EvalUnsupported("division not by the interval / a constant")
+
+    def __mod__(self, o):
+        o = Lin.lift(self.env, o)
+        if not (o._is_interval() and not self.pure and self.s == 0):
+            raise EvalUnsupported("modulo not by the interval")
+        ints = {k: v for k, v in self.time.items() if k == 1 or k in self.env.ints}
+        fr = {k: v for k, v in self.time.items() if k in self.env.fracs}
+        if any(v.denominator != 1 for v in ints.values()) or set(self.time) - set(ints) - set(fr):
+            raise EvalUnsupported("modulo of a non-integral multiple")
+        if not fr:
+            return Lin(self.env, {})
+        if len(fr) == 1 and list(fr.values())[0] == 1:
+            return Lin(self.env, None, dict(fr))
+        raise EvalUnsupported("modulo with several fractional parts")
+
+    def __rmod__(self, o):
+        raise EvalUnsupported("modulo by a symbolic value")
+
+    def trunc(self):
+        """int(x) for a pure value  integer-part + rho."""
+        if self.time or self.s != 0:
+            raise EvalUnsupported("int() of a time")
+        ints = {k: v for k, v in self.pure.items() if k == 1 or k in self.env.ints}
+        fr = {k: v for k, v in self.pure.items() if k in self.env.fracs}
+        if any(v.denominator != 1 for v in ints.values()):
+            raise EvalUnsupported("int() of a non-integral form")
+        ip = Lin(self.env, ints)
+        if not fr:
+            return ip
+        if len(fr) == 1 and list(fr.values())[0] == 1:
+            lo, _, _ = ip._bounds()
+            if lo is not None and lo >= 0:
+                return ip   # truncation == floor for non-negative values
+        raise EvalUnsupported("int() of a possibly negative non-integer")
+
+    # -- deciding signs
+    def _bounds(self):
+        """(inf, sup, strict_low) of the value over the ranges of the symbols; None = unbounded.  Only for values
+        whose sign does not depend on start; a time part contributes the sign of its bracket (interval > 0)."""
+        if self.s != 0:
+            raise EvalUnsupported("sign depends on the start time")
+        if self.pure and self.time:
+            raise EvalUnsupported("mixed pure/time value")
+        form = dict(self.time or self.pure)
+        # substitute related integer symbols
+        changed = True
+        while changed:
+            changed = False
+            for k in list(form):
+                if k in self.env.subst:
+                    c = form.pop(k)
+                    for k2, v2 in self.env.subst[k].items():
+                        form[k2] = form.get(k2, 0) + c * _Fr(v2)
+                    changed = True
+        lo = hi = form.pop(1, _Fr(0))
+        strict_lo = strict_hi = False
+        for k, c in form.items():
+            if c == 0:
+                continue
+            if k in self.env.fracs:       # [0, 1)
+                if c > 0:
+                    hi = None if hi is None else hi + c
+                    strict_hi = True
+                else:
+                    lo = None if lo is None else lo + c
+                    strict_lo = True
+            else:                          # integer >= 0, unbounded above
+                if c > 0:
+                    hi = None
+                else:
+                    lo = None
+        return lo, hi, (strict_lo, strict_hi)
+
+    def sign(self):
+        """+1 / -1 / 0 when decided for every value of the symbols, else EvalUnsupported."""
+        lo, hi, (sl, sh) = self._bounds()
+        if lo is not None and (lo > 0 or (lo == 0 and sl)):
+            return 1
+        if hi is not None and (hi < 0 or (hi == 0 and sh)):
+            return -1
+        if lo == 0 and hi == 0:
+            return 0
+        raise EvalUnsupported(f"sign of {self!r} not decided in this case")
+
+    def nonneg(self):
+        lo, hi, _ = self._bounds()
+        if lo is not None and lo >= 0:
+            return True
+        if hi is not None and (hi < 0):
+            return False
+        raise EvalUnsupported(f"sign of {self!r} not decided in this case")
+
+    def same(self, o):
+        o = Lin.lift(self.env, o)
+        return self.pure == o.pure and self.time == o.time and self.s == o.s
+
+    def __eq__(self, o):
+        if o is None:
+            return False
+        d = self - o
+        if not d.pure and not d.time and d.s == 0:
+            return True
+        return d.sign() == 0
+
+    def __ne__(self, o):
+        return not self.__eq__(o)
+
+    def __gt__(self, o):
+        return (self - o).sign() > 0
+
+    def __lt__(self, o):
+        return (self - o).sign() < 0
+
+    def __ge__(self, o):
+        return (self - o).nonneg()
+
+    def __le__(self, o):
+        return (Lin.lift(self.env, o) - self).nonneg()
+
+    __hash__ = None
+
+    def __repr__(self):
+        def f(d):
+            return " + ".join(f"{v}*{k}" if k != 1 else str(v) for k, v in d.items()) or "0"
+        return f"<{f(self.pure)} + start*{self.s} + interval*({f(self.time)})>"
+
+
+class SymInterp(Interp):
+    """Interp whose numbers may be ``Lin`` values."""
+
+    @staticmethod
+    def arith(op, a, b):
+        if isinstance(a, Lin) or isinstance(b, Lin):
+            return op(a, b)
+        return Interp.arith(op, a, b)
+
+    @staticmethod
+    def truth(v):
+        if isinstance(v, Lin):
+            c = v._const()
+            if c is None:
+                raise EvalUnsupported("truth of a symbolic value")
+            return c != 0
+        return Interp.truth(v)
+
+    def expr(self, e, env):
+        if isinstance(e, ast.Compare):
+            left = self.expr(e.left, env)
+            for op, right in zip(e.ops, e.comparators):
+                r = self.expr(right, env)
+                f = _CMPOPS.get(type(op))
+                if f is None:
+                    raise EvalUnsupported("compare op")
+                if not (isinstance(left, Lin) or isinstance(r, Lin)) and type(op) in (ast.Lt, ast.LtE, ast.Gt, ast.GtE) \
+                        and not all(isinstance(x, (int, float)) for x in (left, r)):
+                    raise EvalUnsupported("ordering of non-numbers")
+                if not f(left, r):
+                    return False
+                left = r
+            return True
+        if isinstance(e, ast.UnaryOp) and isinstance(e.op, (ast.USub, ast.UAdd)):
+            v = self.expr(e.operand, env)
+            if isinstance(v, Lin):
+                return -v if isinstance(e.op, ast.USub) else v
+        return super().expr(e, env)
+
+    def call(self, e, env):
+        if dotted(e.func) == "int" and len(e.args) == 1 and not e.keywords:
+            try:
+                bound = self.lookup("int", env)
+            except EvalUnsupported:
+                bound = None
+            if bound is None:
+                v = self.expr(e.args[0], env)
+                if isinstance(v, Lin):
+                    return v.trunc()
+                if isinstance(v, (int, float)) and not isinstance(v, bool):
+                    return int(v)
+                raise EvalUnsupported("int() of a non-number")
+        return super().call(e, env)
